@@ -443,7 +443,11 @@ def _mpu_order(prog: Program, ci: ClassInfo) -> List[Instance]:
             if isinstance(n, ast.Call) and merge in prog.resolve_call(n, fin) and len(n.args) >= 2:
                 hit = True
                 a0 = short(n.args[0])
-                ok = "hdr" in a0
+                pf = fin.param_names()[0]
+                org_f = Origins(fin)
+                fresh = isinstance(n.args[0], ast.Name) and any(isinstance(v, ast.Call) and call_name(v) == ci.name for _, v in org_f.defs.get(n.args[0].id, []))
+                data_side = pf in org_f.deps_names(n.args[1])
+                ok = fresh and data_side and pf not in org_f.deps_names(n.args[0])
                 out.append(Instance("R-MPU", f"{fin.qual}#ORDER:header-left", OK if ok else BAD,
                                     f"merge({a0}, {short(n.args[1])}): header is the left operand" if ok else f"`{short(n)}`: header must be merged on the left of the data", fin.where(n)))
                 wr = len(n.args) > 2 or any(k.arg == "write" for k in n.keywords)
@@ -460,7 +464,11 @@ def _mpu_order(prog: Program, ci: ClassInfo) -> List[Instance]:
             if isinstance(n, ast.Call) and merge in prog.resolve_call(n, f) and len(n.args) >= 2:
                 a0, a1 = short(n.args[0]), short(n.args[1])
                 if q.endswith("_collate_op"):
-                    ok = a0 == "root" and a1 != "root"
+                    st = enclosing_stmt(n)
+                    acc = short(st.targets[0]) if isinstance(st, ast.Assign) else None
+                    lp = parent(st)
+                    loopvar = short(lp.target) if isinstance(lp, ast.For) else None
+                    ok = acc is not None and a0 == acc and a1 == loopvar
                 else:
                     fp = [p.arg for p in f.positional_params()]
                     ok = [a0, a1] == fp[:2]
@@ -766,34 +774,51 @@ def _mpu_stride(prog: Program, ci: ClassInfo) -> List[Instance]:
             out.append(Instance("R-MPU", f"{gb.qual}#STRIDE", UNDET, "MPUChunk construction not found in gen_bunch", gb.where()))
     mwf = prog.maybe_func("cog._mpu:mpu_write")
     if mwf is not None:
-        # partId = min_part + 1 ; partId = partId + ch.npartitions * writes_per_chunk
+        # the id variable = first positional argument of from_dask_bag
+        idv = None
+        fcall = None
+        for n in walk_own(mwf.node):
+            if isinstance(n, ast.Call) and call_name(n) == "from_dask_bag" and n.args and isinstance(n.args[0], ast.Name):
+                idv = n.args[0].id
+                fcall = n
+        if idv is None:
+            out.append(Instance("R-MPU", f"{mwf.qual}#STRIDE", UNDET, "from_dask_bag(partId, ...) not found", mwf.where()))
+            return out
+        org = Origins(mwf)
         first = adv = None
         for n in walk_own(mwf.node):
-            if isinstance(n, ast.Assign) and len(n.targets) == 1 and isinstance(n.targets[0], ast.Name) and n.targets[0].id == "partId":
-                if "npartitions" in short(n.value):
+            if isinstance(n, ast.Assign) and len(n.targets) == 1 and isinstance(n.targets[0], ast.Name) and n.targets[0].id == idv:
+                if idv in names_in(n.value):
                     adv = n
                 else:
                     first = n
         if first is not None:
-            ok = isinstance(first.value, ast.BinOp) and isinstance(first.value.op, ast.Add) and const_num(first.value.right) == 1 and short(first.value.left) == "min_part"
-            out.append(Instance("R-MPU", f"{mwf.qual}#STRIDE:first-id", OK if ok else BAD,
-                                "first data part id is min_part + 1 (min_part is reserved for the header/left data)" if ok else f"first data part id is `{short(first.value)}`: id min_part must stay free for the header part written last", mwf.where(first)))
+            v = first.value
+            base_is_min = isinstance(v, ast.BinOp) and isinstance(v.op, ast.Add) and const_num(v.right) == 1 and any(
+                isinstance(d, ast.Attribute) and d.attr == "min_part" for nm in names_in(v.left) for _, d in org.defs.get(nm, [])
+            )
+            out.append(Instance("R-MPU", f"{mwf.qual}#STRIDE:first-id", OK if base_is_min else BAD,
+                                "first data part id is the writer's min_part + 1 (min_part stays free for the header/left data written last)" if base_is_min
+                                else f"first data part id is `{short(v)}`: the id min_part must stay free for the header part", mwf.where(first)))
         else:
-            out.append(Instance("R-MPU", f"{mwf.qual}#STRIDE:first-id", UNDET, "initial partId assignment not found", mwf.where()))
-        if adv is not None:
-            txt = short(adv.value)
-            ok = "npartitions * writes_per_chunk" in txt or "writes_per_chunk * ch.npartitions" in txt
-            ok = ok and txt.startswith("partId +")
+            out.append(Instance("R-MPU", f"{mwf.qual}#STRIDE:first-id", UNDET, "initial part id assignment not found", mwf.where()))
+        if adv is not None and fcall is not None:
+            v = adv.value
+            wpc = next((k.value for k in fcall.keywords if k.arg == "writes_per_chunk"), None)
+            ok = isinstance(v, ast.BinOp) and isinstance(v.op, ast.Add) and short(v.left) == idv and isinstance(v.right, ast.BinOp) and isinstance(v.right.op, ast.Mult)
+            if ok:
+                fac = {short(v.right.left), short(v.right.right)}
+                ok = wpc is not None and short(wpc) in fac and any(f_.endswith(".npartitions") for f_ in fac)
             out.append(Instance("R-MPU", f"{mwf.qual}#STRIDE:advance", OK if ok else BAD,
-                                "next sub-stream starts after npartitions*writes_per_chunk ids" if ok else f"`{short(adv)}`: sub-streams would share part ids", mwf.where(adv)))
+                                "next sub-stream starts after npartitions * writes_per_chunk ids" if ok else f"`{short(adv)}`: sub-streams would share or skip part ids", mwf.where(adv)))
         else:
-            out.append(Instance("R-MPU", f"{mwf.qual}#STRIDE:advance", UNDET, "partId advance not found", mwf.where()))
-        # lhs_keep = write.min_write_sz
-        for n in walk_own(mwf.node):
-            if isinstance(n, ast.Assign) and len(n.targets) == 1 and isinstance(n.targets[0], ast.Name) and n.targets[0].id == "lhs_keep" and not isinstance(n.value, ast.Constant):
-                ok = isinstance(n.value, ast.Attribute) and n.value.attr == "min_write_sz"
-                out.append(Instance("R-MPU", f"{mwf.qual}#STRIDE:lhs_keep", OK if ok else BAD,
-                                    "bytes reserved for the header part equal the writer's minimum part size" if ok else f"`{short(n)}`: left reservation must be min_write_sz or the header part can end up undersized", mwf.where(n)))
+            out.append(Instance("R-MPU", f"{mwf.qual}#STRIDE:advance", UNDET, "part id advance not found", mwf.where()))
+        lk = next((k.value for k in fcall.keywords if k.arg == "lhs_keep"), None) if fcall is not None else None
+        if isinstance(lk, ast.Name):
+            defs = [d for _, d in org.defs.get(lk.id, []) if not isinstance(d, ast.Constant)]
+            ok = bool(defs) and all(isinstance(d, ast.Attribute) and d.attr == "min_write_sz" for d in defs)
+            out.append(Instance("R-MPU", f"{mwf.qual}#STRIDE:lhs_keep", OK if ok else BAD,
+                                "bytes reserved for the header part equal the writer's minimum part size" if ok else "left reservation is not the writer's min_write_sz: the header part can end up undersized", mwf.where()))
     return out
 
 
@@ -836,10 +861,16 @@ def rule_flow16(prog: Program) -> List[Instance]:
                     ok = isinstance(v, ast.Call) and call_name(v) == "adjust_blocksize"
                     dim_ok = True
                     if ok and len(v.args) > 1:
-                        want = "nx" if k.value == "blockxsize" else "ny"
-                        dim_ok = isinstance(v.args[1], ast.Name) and v.args[1].id == want
+                        axis_names = {}
+                        for a_ in walk_own(dco.node):
+                            if isinstance(a_, ast.Assign) and isinstance(a_.targets[0], ast.Tuple) and len(a_.targets[0].elts) == 2 and short(a_.value).endswith((".xy", ".wh")):
+                                axis_names = {"blockxsize": short(a_.targets[0].elts[0]), "blockysize": short(a_.targets[0].elts[1])}
+                            if isinstance(a_, ast.Assign) and isinstance(a_.targets[0], ast.Tuple) and len(a_.targets[0].elts) == 2 and short(a_.value).endswith((".yx", ".shape")):
+                                axis_names = {"blockysize": short(a_.targets[0].elts[0]), "blockxsize": short(a_.targets[0].elts[1])}
+                        want = axis_names.get(k.value)
+                        dim_ok = want is not None and isinstance(v.args[1], ast.Name) and v.args[1].id == want
                     out.append(Instance("R-FLOW16", f"{dco.qual}#{k.value}", OK if ok and dim_ok else BAD,
-                                        f"{k.value} = {short(v)}" if ok and dim_ok else f"{k.value} = `{short(v)}` is not adjust_blocksize(blocksize, {'nx' if k.value == 'blockxsize' else 'ny'})", dco.where(v)))
+                                        f"{k.value} = {short(v)}" if ok and dim_ok else f"{k.value} = `{short(v)}` is not adjust_blocksize(blocksize, <image {'width' if k.value == 'blockxsize' else 'height'}>)", dco.where(v)))
     mec = prog.func("cog._tifffile:_make_empty_cog")
     tiles = 0
     for n in walk_own(mec.node):
